@@ -159,6 +159,9 @@ bool Action::stop() {
   if (timer_ev_ != nullptr)
     timer_ev_->disable();
 
+  //! a block notification that is still queued belongs to the run that ends here
+  cancelDispatchedCallback();
+
   is_base_func_invoked_ = false;
 
   onStop();
